@@ -532,17 +532,8 @@ func (c *DnsCache) GetPackedResponseWithApproximateTTL(qname string, qtype uint1
 	}
 
 	// Lock-free read: atomic pointer load (no mutex, no blocking)
-	packedPtr := c.packedResponse.Load()
-	if packedPtr != nil && *packedPtr != nil {
-		// Use cached response if TTL difference is within threshold
-		cachedTTL := c.packedResponseTTL.Load()
-		if cachedTTL >= currentTTL {
-			if cachedTTL-currentTTL <= ttlRefreshThresholdSeconds {
-				return *packedPtr
-			}
-		} else if currentTTL-cachedTTL <= ttlRefreshThresholdSeconds {
-			return *packedPtr
-		}
+	if packed := c.packedWithinTTLThreshold(currentTTL); packed != nil {
+		return packed
 	}
 
 	// Slow path: refresh pre-packed response with new TTL
@@ -559,12 +550,36 @@ func (c *DnsCache) GetPackedResponseWithApproximateTTL(qname string, qtype uint1
 		}
 	}
 
-	// Return current response (might be slightly stale, but acceptable)
-	packedPtr = c.packedResponse.Load()
+	// Another goroutine may be in the middle of the refresh (it won the CAS
+	// above but has not published yet), or the refresh failed. The bytes we can
+	// see may then carry a TTL far above the remaining lifetime, so hand them
+	// out only if they are within the threshold; otherwise return nil and let
+	// the caller fall back to its exact TTL-aware path.
+	return c.packedWithinTTLThreshold(currentTTL)
+}
+
+// packedWithinTTLThreshold returns the pre-packed response if the TTL it was
+// packed with differs from currentTTL by at most ttlRefreshThresholdSeconds,
+// nil otherwise.
+//
+// The TTL is loaded before the bytes on purpose: prepackResponse* publish the
+// bytes first and their TTL second, and the TTL of an entry only decreases
+// from one repack to the next, so the bytes returned here are never packed with
+// a larger TTL than the one that was checked.
+func (c *DnsCache) packedWithinTTLThreshold(currentTTL uint32) []byte {
+	cachedTTL := c.packedResponseTTL.Load()
+	packedPtr := c.packedResponse.Load()
 	if packedPtr == nil || *packedPtr == nil {
 		return nil
 	}
-	return *packedPtr
+	if cachedTTL >= currentTTL {
+		if cachedTTL-currentTTL <= ttlRefreshThresholdSeconds {
+			return *packedPtr
+		}
+	} else if currentTTL-cachedTTL <= ttlRefreshThresholdSeconds {
+		return *packedPtr
+	}
+	return nil
 }
 
 // GetStaleResponse returns expired response if within stale-while-revalidate window.
